@@ -2080,6 +2080,31 @@ pub mod verif {
         }
     }
 
+    /// NFA of a production automaton as it is right before `compile()`: the same expression
+    /// `MatcherAutomata::new` builds from the registered matchers
+    fn matchers_nfa<T: Clone + Ord>(
+        matchers: &[Box<dyn Matcher<Item = T>>],
+    ) -> NFA<MatcherTag<T>> {
+        NFA::choice(matchers.iter().enumerate().map(|(index, matcher)| {
+            match matcher.matcher() {
+                Either::Left(automata) => automata
+                    .tags_map(|_| MatcherTag::Matcher(index))
+                    .tag_stop_state(MatcherTag::Matcher(index)),
+                Either::Right(automata) => automata.tags_map(MatcherTag::Item),
+            }
+        }))
+    }
+
+    /// Debug (DOT) text of the NFA of a production automaton: "event", "command" or "utf8"
+    pub fn dump_nfa(which: &str) -> Option<String> {
+        match which {
+            "event" => Some(format!("{:?}", matchers_nfa(&TTY_EVENT_AUTOMATA.matchers))),
+            "command" => Some(format!("{:?}", matchers_nfa(&TTY_COMMAND_AUTOMATA.matchers))),
+            "utf8" => Some(format!("{:?}", utf8_nfa::<()>(UTF8Mode::Canonical))),
+            _ => None,
+        }
+    }
+
     /// Debug names of matchers registered in production automata, in index order
     pub fn matcher_names(which: &str) -> Vec<String> {
         match which {
